@@ -103,7 +103,12 @@ def parse_lp_block(lines):
 
 def pick_xform(rng, lp):
     n, m = len(lp["cols"]), len(lp["rows"])
-    k = rng.choice(["negobj", "scalerow", "scalerow", "duprow", "redundant", "spliteq", "permrows", "permcols", "subst", "subst", "boundrow", "boundrow"])
+    k = rng.choice(["negobj", "scalerow", "scalerow", "duprow", "redundant", "spliteq", "permrows", "permcols", "subst", "subst", "boundrow", "boundrow", "addslack", "addslack"])
+    if k == "addslack":
+        ineq = [i for i, r in enumerate(lp["rows"]) if r[1] in "LG"]
+        if ineq:
+            return ["addslack", str(rng.choice(ineq))]
+        k = "negobj"
     if k == "boundrow":
         # a finite bound of a column becomes an explicit row (None from the model when that bound is infinite)
         fin = [(j, "U") for j, c in enumerate(lp["cols"]) if c[3] not in (INF, NINF)] + [(j, "L") for j, c in enumerate(lp["cols"]) if c[2] not in (INF, NINF)]
@@ -252,7 +257,7 @@ def main():
         ck.violation("proof.txt", pr["log"], "proof obligation(s) of Properties_C15.v no longer check: %s" % pr["failed"], no_input=not ck.violations)
     ck.cov["rule"] = ("sparse generators (transportation, staircase, planted, assignment, infeasible/unbounded variants) of %d..%d rows plus small families; "
                       "each LP is pushed through a chain of %d Coq-extracted, proved-equivalent reformulations (row permutation, row scaling of either sign, duplicate row, "
-                      "redundant row, equality split, objective negation, column permutation, affine variable substitution, bound written as a row); both LPs solved by QSexact_solver; non-trivial = a chain of "
+                      "redundant row, equality split, objective negation, column permutation, affine variable substitution, bound written as a row, inequality written with a slack column); both LPs solved by QSexact_solver; non-trivial = a chain of "
                       ">= 1 applied reformulation with both answers compared; distinct by (LP, chain)" % (min(s[0] for s in sizes) if sizes else 0, max(s[0] for s in sizes) if sizes else 0, chain_len))
     ck.cov["evaluations"] = len(cases)
     ck.cov["reformulations_applied"] = kinds
